@@ -213,9 +213,34 @@ func (p *ProofD) correctResponseSizes(pk *gabikeys.PublicKey) bool {
 	return p.EResponse.Cmp(minimum) >= 0 && p.EResponse.Cmp(maximum) <= 0
 }
 
+// validAttributeIndices checks that every attribute index in the proof refers to a base of the
+// public key, that no index is both disclosed and hidden, and that the secret key (index 0) is
+// not disclosed. Without this a holder could split an attribute into a disclosed part and a
+// hidden remainder, and have a value accepted that the issuer never signed.
+func (p *ProofD) validAttributeIndices(pk *gabikeys.PublicKey) bool {
+	for i, response := range p.AResponses {
+		if i < 0 || i >= len(pk.R) || response == nil {
+			return false
+		}
+	}
+	for i, attribute := range p.ADisclosed {
+		if i <= 0 || i >= len(pk.R) || attribute == nil {
+			return false
+		}
+		if _, hidden := p.AResponses[i]; hidden {
+			return false
+		}
+	}
+	return true
+}
+
 // reconstructZ reconstructs Z from the information in the proof and the
 // provided public key.
 func (p *ProofD) reconstructZ(pk *gabikeys.PublicKey) (*big.Int, error) {
+	if !p.validAttributeIndices(pk) {
+		return nil, errors.New("invalid attribute indices in proof")
+	}
+
 	// known = Z / ( prod_{disclosed} R_i^{a_i} * A^{2^{l_e - 1}} )
 	numerator := new(big.Int).Lsh(big.NewInt(1), pk.Params.Le-1)
 	numerator.Exp(p.A, numerator, pk.N)
